@@ -249,10 +249,12 @@ theorem c03_fd_quiet (k : Kind) (as : List Act) (a : Act) (c' : Conn) :
     simp only [addCheck, addP, addOpen, addTable, addReg, sessOpen, udpListen, dialStart, dialStartFail, dialNow,
       armDial, dialed, flip, teardown, timerW, userOp, h1, h2, hfd] <;> (repeat' split) <;> simp_all
 
-/-- C03 fd table: a conn whose teardown is complete is not in the fd table (so the poller never dispatches an event
-    to it, `Stop` does not close it again, and the table entry of its descriptor NUMBER — which the kernel may have
-    handed to another conn meanwhile — is never written by it again: `addConn` tests the flag, stores and registers in
-    one critical section). -/
+/-- C03 fd table, as far as a single-conn model can say it: a conn whose teardown is complete has its OWN in-table flag
+    clear (so the poller never dispatches an event to it and `Stop` does not close it again), because `addConn` tests the
+    closed flag, stores and registers in one critical section. That `addConn` of a conn closed by its open callback never
+    touches the table entry of the descriptor NUMBER's new owner is not expressible here: it rests on the two-conn driver
+    composition (`addcr`), the oracle `c03-close-once` and the critical-section predicate. `addReg` always succeeds in the
+    model: the branch "EPOLL_CTL_ADD fails on an open conn ⇒ clear the entry, closeWithError" is not a model step. -/
 theorem c03_table (k : Kind) (as : List Act) :
     let c := run (mk k) as
     c.closed = true → c.td = none → c.inTable = false := by
